@@ -1,6 +1,7 @@
 package main
 
 import (
+	"go/types"
 	"go/constant"
 	"fmt"
 	"strings"
@@ -893,6 +894,50 @@ func secretKeyRandomizerRule(P *Program, R *Report, rule string) {
 				}
 			}
 			if !handedOut {
+				return
+			}
+			if prm, isP := callArgs(c)[0].(*ssa.Parameter); isP {
+				// a helper that is told the length: what is decided is what the callers that hand the map on pass for it
+				idx := -1
+				for k, q := range fn.Params {
+					if q == prm {
+						idx = k
+					}
+				}
+				for _, f := range P.AllFuncs {
+					if f.Blocks == nil || !inModuleFn(f) {
+						continue
+					}
+					for _, ci := range callsIn(f) {
+						cc, isCall := ci.(*ssa.Call)
+						if !isCall || staticCallee(ci) != fn || idx < 0 || idx >= len(ci.Common().Args) {
+							continue
+						}
+						hands := false
+						for _, r := range returnsOf(f) {
+							for k := 0; k < retCount(r); k++ {
+								rv := retValue(r, k)
+								if ex, isEx := rv.(*ssa.Extract); isEx {
+									if _, isMap := ex.Type().Underlying().(*types.Map); !isMap {
+										continue
+									}
+									rv = ex.Tuple
+								}
+								if rv == ssa.Value(cc) {
+									hands = true
+								}
+							}
+						}
+						if !hands {
+							continue
+						}
+						n++
+						d := desc(ci.Common().Args[idx])
+						okL := strings.Contains(d, "DefaultSystemParameters[1024]") && strings.HasSuffix(d, ".LmCommit")
+						R.seen(FuncKey(f))
+						R.decide(rule, FuncKey(f)+":secretkey-randomizer-length", "the randomizer filed under \"secretkey\" is drawn with LmCommit bits of the 1024-bit parameters", okL, "length: "+d+" (passed to "+FuncKey(fn)+")", P.Pos(ci.Pos()))
+					}
+				}
 				return
 			}
 			n++
